@@ -454,12 +454,16 @@ func c22Tables(w *c16World) map[string]*c22Table {
 	t := map[string]*c22Table{}
 	add := func(key string, good, odd []c22Val) { t[key] = &c22Table{key, good, odd} }
 	add("port",
-		[]c22Val{c22S("80"), c22Q("80"), c22S("443"), c22S("any"), c22Q("any"), c22S("0"), c22S("fragment"), c22S("80-81"), c22Q("80-81"), c22S("400-443"), c22S("65535"), c22S("65000-65535"), c22S("80-80"), c22S("1"), c22S("0-100"), c22Q("0080"), c22S("10-120")},
-		[]c22Val{c22Q("80 - 81"), c22Q(" 80"), c22Q("80 "), c22Q(" 80-81 "), c22Q(" any"),
+		[]c22Val{c22S("80"), c22Q("80"), c22S("443"), c22S("any"), c22Q("any"), c22S("0"), c22S("fragment"), c22S("80-81"), c22Q("80-81"), c22S("400-443"), c22S("65535"), c22S("65000-65535"), c22S("80-80"), c22S("1"), c22S("0-100"), c22Q("0080"), c22S("10-120"),
+			// boundary ranges: the whole port space, one short of it at either end, degenerate ranges
+			c22S("0-65535"), c22S("0-0"), c22S("65535-65535"), c22S("1-1"), c22Q("65535-65535"), c22S("65534-65535"), c22S("1-2")},
+		[]c22Val{c22Q("0 - 65535"), c22Q("0 - 0"), c22Q("65535 - 65535"), c22Q(" 1 - 1 "), c22Q("80 - 81"), c22Q(" 80"), c22Q("80 "), c22Q(" 80-81 "), c22Q(" any"),
 			c22S("65536"), c22Q("65536"), c22S("-1"), c22Q("-1"), c22S("81-80"), c22Q("80-"), c22Q("-80"), c22S("80-81-82"), c22Q("80,81"), c22S("ANY"), c22S("Any"), c22S("Fragment"), c22Q(""), c22S("http"),
 			c22Q("0x50"), c22Q("1e2"), c22Q("８０"), c22S("80-65536"), c22S("65536-65537"), c22Q("+80"), c22S("4294967376"), c22S("99999999999999999999"), c22S("80.5"), c22S("80-0x51"), c22S("0-65536"), c22Q("1--2"), c22Q("80 81"),
 			c22S("0x50"), c22S("0o120"), c22S("0120"), c22S("0b1010000"), c22S("8_0"), c22S("+80"), c22S("80.0"), c22S("8e1"), c22S("1e2"), c22S("4.43e2"), c22S(".8e2"), c22S("80."), c22S("010"), c22S("0x1BB"),
 			c22S("true"), c22L(c22S("80")), c22L(c22S("80"), c22S("81")), c22M(), c22N("~"), c22N("null"), c22N("")})
+	add("port-wide", []c22Val{c22S("1-65535"), c22Q("1-65535"), c22S("1-65534"), c22S("2-65535")},
+		[]c22Val{c22Q("1 - 65535"), c22Q(" 1 - 65535 "), c22Q("1 -65535"), c22Q("1 - 65534"), c22Q("2 - 65535")})
 	add("code", []c22Val{c22S("80"), c22S("any")}, []c22Val{c22S("0x50"), c22S("65536"), c22N("~"), c22L(c22S("80"))})
 	add("proto",
 		[]c22Val{c22S("tcp"), c22S("tcp"), c22S("udp"), c22S("icmp"), c22S("any"), c22Q("tcp")},
@@ -526,6 +530,11 @@ func c22GenRule(rng *rand.Rand, tabs map[string]*c22Table) c22RuleDoc {
 		if oddKeys[k] {
 			v = c16Pick(rng, tb.odd)
 		}
+		if k == "port" && rng.IntN(120) == 0 {
+			// the whole port space and its neighbours (rare: the real table gets one nested table per port)
+			wide := tabs["port-wide"]
+			v = c16Pick(rng, append(slices.Clone(wide.good), wide.odd...))
+		}
 		d.Fields = append(d.Fields, c22Field{k, v})
 	}
 	if rng.IntN(20) == 0 {
@@ -588,7 +597,12 @@ func newC22Harness(r *verifkit.Reporter) *c22Harness {
 		}
 	}
 	locals := []netip.Addr{c16A("10.0.0.1"), c16A("192.168.0.9"), c16A("192.168.0.70")}
-	tcpPorts := []uint16{1, 8, 10, 16, 64, 79, 80, 81, 82, 100, 120, 399, 400, 443, 444, 1000, 65000, 65535}
+	// destination ports: both ends of the port space (0, 1, 2, 65534, 65535) for every protocol that has ports, non-first
+	// fragments (Fragment=true, ports 0) for every protocol, so that a range silently widened to `any` or narrowed by one
+	// shows up as a verdict mismatch
+	tcpPorts := []uint16{0, 1, 2, 8, 10, 16, 64, 79, 80, 81, 82, 100, 120, 399, 400, 443, 444, 1000, 65000, 65534, 65535}
+	udpPorts := []uint16{0, 1, 2, 80, 81, 65534, 65535}
+	edge := []uint16{0, 1, 80, 443, 65534, 65535}
 	for _, in := range []bool{true, false} {
 		for li, la := range locals {
 			mk := func(proto uint8, dst uint16, frag bool) {
@@ -601,23 +615,30 @@ func newC22Harness(r *verifkit.Reporter) *c22Harness {
 							p.LocalPort, p.RemotePort = 40000, dst
 						}
 					}
-				} else if proto == 1 {
+				} else if c16IsICMP(proto) && !frag {
 					p.RemotePort = 80
 				}
 				h.probes = append(h.probes, c22Probe{p, in})
 			}
-			for _, d := range tcpPorts {
-				if li == 0 || d == 80 || d == 443 {
-					mk(6, d, false)
-				}
+			tp, up := tcpPorts, udpPorts
+			if li > 0 {
+				tp, up = edge, edge
 			}
-			mk(6, 0, true)
-			mk(17, 80, false)
-			mk(17, 81, false)
+			for _, d := range tp {
+				mk(6, d, false)
+			}
+			for _, d := range up {
+				mk(17, d, false)
+			}
+			for _, proto := range []uint8{6, 17, 1, 58, 47} {
+				mk(proto, 0, true)
+			}
 			mk(1, 0, false)
+			mk(58, 0, false)
 			mk(47, 0, false)
 		}
 	}
+	r.Info("probe_set", fmt.Sprintf("%d peers x %d packets per loaded configuration", len(h.peers), len(h.probes)))
 	r.Info("reference_choices", []string{
 		"port text is judged as written: only `any`, `fragment`, ASCII decimal 0..65535 (leading zeros allowed) and decimal lo-hi with lo<=hi are valid; everything else (hex, octal, exponent, sign, underscore, fraction, upper case) must be rejected",
 		"`0`, and a range that starts at 0 (e.g. `0-100`), read as `any` (documentation: \"Takes `0` or `any` as any\"); the range form is an open cell fixed to this reading",
@@ -897,7 +918,12 @@ func TestVerifC22Fields(t *testing.T) {
 	yes := true
 	for _, key := range c22FieldOrder {
 		tb := tabs[key]
-		for _, v := range append(slices.Clone(tb.good), tb.odd...) {
+		vals := append(slices.Clone(tb.good), tb.odd...)
+		if key == "port" {
+			vals = append(vals, tabs["port-wide"].good...)
+			vals = append(vals, tabs["port-wide"].odd...)
+		}
+		for _, v := range vals {
 			for variant := 0; variant < 3; variant++ {
 				var fs []c22Field
 				for _, f := range c22Base() {
@@ -954,7 +980,7 @@ func TestVerifC22Fields(t *testing.T) {
 // TestVerifC22Configs generates whole configurations.
 func TestVerifC22Configs(t *testing.T) {
 	r := verifkit.NewReporter(t, "C22", "configs",
-		"PRNG configurations: 0..3 inbound and 0..2 outbound rules, every rule a mapping with a random subset of {port,code,proto,host,group,groups,cidr,local_cidr,ca_name,ca_sha} in random order, values drawn from the documented forms and (0..2 fields per rule) from the odd forms of the tables (every YAML type, port grammar, cidr strings), unknown keys, non-mapping items, default_local_cidr_any on/off/absent; loaded firewalls are probed with 37 peers x 150 packets and compared with the C16 reference applied to the textual rules; distinct = distinct (reference status, set of field=value per rule)")
+		"PRNG configurations: 0..3 inbound and 0..2 outbound rules, every rule a mapping with a random subset of {port,code,proto,host,group,groups,cidr,local_cidr,ca_name,ca_sha} in random order, values drawn from the documented forms and (0..2 fields per rule) from the odd forms of the tables (every YAML type, port grammar, cidr strings), unknown keys, non-mapping items, default_local_cidr_any on/off/absent; loaded firewalls are probed with 37 peers x 152 packets (both ends of the port space for tcp/udp, port 0, non-first fragments of every protocol, icmp, icmpv6, gre) and compared with the C16 reference applied to the textual rules; distinct = distinct (reference status, set of field=value per rule)")
 	defer r.Done()
 	h := newC22Harness(r)
 	tabs := c22Tables(h.w)
